@@ -9,15 +9,15 @@ P("C06",
              "run-to-boundary; save (time + both queues in pop order + encoded world); load into a fresh simulation; run "
              "yields the same remaining trace, outcome and final state as the uninterrupted run, which is the concatenation "
              "(c06_restore_rebuilds_pop_order: re-pushing a pop-order snapshot re-assigns sequence numbers but reproduces the pop order; "
-             "c06_renumbering_bisimulation). The abstract simulation (Lib/AbsSim) is tied exactly to timing.SerialEngine + "
+             "c06_renumbering_bisimulation). c06_heap_queue_refines_canonical proves that the heap-backed queue of C01 (Lib/Engine, tied exactly to timing/eventqueue.go) refines the canonical sorted queue for every push/pop sequence, so the framework theorems hold of the real queue structure. The abstract simulation (Lib/AbsSim) is tied exactly to timing.SerialEngine + "
              "simulation.SaveCheckpoint/LoadCheckpoint on scripted handler programs (full handled trace with event IDs, counters, ID counter). "
              "PARTIAL for library components: completeness of each component's State w.r.t. hidden Go fields is shown only by the "
              "differential (event-trace suffix incl. IDs + every entity's final payload equal) on ideal/banked memories, both cache "
              "families and the full virtual-memory stack, cut at sampled (quick) or every (thorough) distinct event time.",
   level_note="Trusted: Coq kernel + vm_compute; Go harness (script interpreter, assemblies in harness/internal/asm, event-trace hook, "
              "archive reader); the world codec round trip is a hypothesis of the framework theorem (discharged per State type by C08); "
-             "the heap inside timing.eventqueue is abstracted to its canonical (time,seq)-sorted list (refinement proved in C01).",
-  assumptions=["component State JSON round trip (C08)", "event queue behaves as a (time,seq) priority queue (C01)",
+             "the heap inside timing.eventqueue is related to the canonical (time,seq)-sorted list by c06_heap_queue_refines_canonical (over C01's heap model).",
+  assumptions=["component State JSON round trip (C08)", 
                "library assemblies are sampled, not proved"],
   trusted=["modelled, not verified: timing/serialengine.go (Schedule, Run, RunUntil, nextEvent), timing/eventqueue.go (abstracted), "
            "timing/serialengine_checkpoint.go, simulation/checkpoint.go (save/load order), timing/idgenerator_checkpoint.go (counter)",
